@@ -426,7 +426,7 @@ func (k *K) drain() {
 		}
 	}
 	if len(p) > 1 {
-		sort.Stable(reqOrder(p))
+		sort.Stable(reqOrder{p, k})
 	}
 	for _, r := range p {
 		t := k.tasks[r.gid]
@@ -446,24 +446,41 @@ func (k *K) drain() {
 	}
 }
 
-type reqOrder []*Req
+// reqOrder is the canonical order of the requests that arrived during one step: by site, object and key, and -
+// when two tasks the kernel already knows ask for the very same thing in the same step (the two ends of a
+// channel hand-over that both go on to close the same connection) - by the tasks' numbers. The order in which
+// the requests happened to be posted is real time, and must not reach the schedule.
+type reqOrder struct {
+	p []*Req
+	k *K
+}
 
 //go:norace
-func (p reqOrder) Len() int { return len(p) }
+func (o reqOrder) Len() int { return len(o.p) }
 
 //go:norace
-func (p reqOrder) Swap(i, j int) { p[i], p[j] = p[j], p[i] }
+func (o reqOrder) Swap(i, j int) { o.p[i], o.p[j] = o.p[j], o.p[i] }
 
 //go:norace
-func (p reqOrder) Less(i, j int) bool {
-	a, b := p[i], p[j]
+func (o reqOrder) Less(i, j int) bool {
+	a, b := o.p[i], o.p[j]
 	if a.Site != b.Site {
 		return a.Site < b.Site
 	}
 	if a.Obj != b.Obj {
 		return a.Obj < b.Obj
 	}
-	return a.Key < b.Key
+	if a.Key != b.Key {
+		return a.Key < b.Key
+	}
+	ia, ib := 0, 0
+	if t := o.k.tasks[a.gid]; t != nil {
+		ia = t.ID
+	}
+	if t := o.k.tasks[b.gid]; t != nil {
+		ib = t.ID
+	}
+	return ia < ib
 }
 
 // Run is the kernel loop. done is evaluated after every step; the run ends
